@@ -18,3 +18,37 @@ pub open spec fn cmap(m: Map<Key, Bytes>) -> Map<Seq<u8>, Seq<u8>> {
         |k: Seq<u8>| bview(&m[choose|kk: Key| #[trigger] m.contains_key(kk) && kk@ == k]),
     )
 }
+
+// ---------- sorted enumeration of an abstract content map ----------
+pub open spec fn strictly_sorted(s: Seq<Seq<u8>>) -> bool {
+    forall|i: int, j: int| 0 <= i < j < s.len() ==> lex_lt(#[trigger] s[i], #[trigger] s[j])
+}
+/// `s` lists exactly the elements of `d`, in strictly increasing lexicographic order
+pub open spec fn is_key_enum(d: Set<Seq<u8>>, s: Seq<Seq<u8>>) -> bool {
+    &&& strictly_sorted(s)
+    &&& forall|k: Seq<u8>| d.contains(k) <==> s.contains(k)
+}
+pub open spec fn sorted_keys(d: Set<Seq<u8>>) -> Seq<Seq<u8>> {
+    choose|s: Seq<Seq<u8>>| is_key_enum(d, s)
+}
+/// key/value pairs of `m` for the keys `ks`, each key as an RLP string followed by the raw RLP value
+pub open spec fn pairs_rlp_keys(m: Map<Seq<u8>, Seq<u8>>, ks: Seq<Seq<u8>>) -> Seq<u8>
+    decreases ks.len()
+{
+    if ks.len() == 0 { Seq::empty() } else { pairs_rlp_keys(m, ks.drop_last()) + rlp_str(ks.last()) + m[ks.last()] }
+}
+pub open spec fn pairs_rlp(m: Map<Seq<u8>, Seq<u8>>) -> Seq<u8> {
+    pairs_rlp_keys(m, sorted_keys(m.dom()))
+}
+/// EIP-778 signed content: the RLP list [seq, k1, v1, ...]
+pub open spec fn content_payload(seq: nat, m: Map<Seq<u8>, Seq<u8>>) -> Seq<u8> { rlp_uint(seq) + pairs_rlp(m) }
+pub open spec fn content_rlp(seq: nat, m: Map<Seq<u8>, Seq<u8>>) -> Seq<u8> {
+    hdr(true, content_payload(seq, m).len()) + content_payload(seq, m)
+}
+/// EIP-778 record: the RLP list [signature, seq, k1, v1, ...]
+pub open spec fn record_payload(sig: Seq<u8>, seq: nat, m: Map<Seq<u8>, Seq<u8>>) -> Seq<u8> {
+    rlp_str(sig) + rlp_uint(seq) + pairs_rlp(m)
+}
+pub open spec fn record_rlp(sig: Seq<u8>, seq: nat, m: Map<Seq<u8>, Seq<u8>>) -> Seq<u8> {
+    hdr(true, record_payload(sig, seq, m).len()) + record_payload(sig, seq, m)
+}
